@@ -3,6 +3,7 @@ package rules
 import (
 	"fmt"
 	"go/ast"
+	"go/token"
 	"go/types"
 	"strings"
 
@@ -27,14 +28,24 @@ func mainAction(c *core.Ctx, R string) (*core.Func, *ast.FuncLit, *ssa.Function)
 	}
 	info := m.Pkg.TypesInfo
 	var lit *ast.FuncLit
+	var named *core.Func
 	ast.Inspect(m.Decl.Body, func(n ast.Node) bool {
 		as, ok := n.(*ast.AssignStmt)
 		if !ok || len(as.Lhs) != 1 || len(as.Rhs) != 1 {
 			return true
 		}
 		if fv := core.FieldOf(info, as.Lhs[0]); fv != nil && fv.Name() == "Action" {
-			if fl, ok := as.Rhs[0].(*ast.FuncLit); ok {
-				lit = fl
+			switch x := ast.Unparen(as.Rhs[0]).(type) {
+			case *ast.FuncLit:
+				lit = x
+			case *ast.Ident:
+				// a named function of package main as the action: treated like the literal it replaces
+				if fo, ok := info.Uses[x].(*types.Func); ok {
+					if nf := c.P.ByObj[fo]; nf != nil && nf.Pkg == m.Pkg && nf.Decl.Body != nil {
+						lit = &ast.FuncLit{Type: nf.Decl.Type, Body: nf.Decl.Body}
+						named = nf
+					}
+				}
 			}
 		}
 		return true
@@ -48,6 +59,9 @@ func mainAction(c *core.Ctx, R string) (*core.Func, *ast.FuncLit, *ssa.Function)
 		if a.Syntax() == ast.Node(lit) {
 			sf = a
 		}
+	}
+	if named != nil {
+		sf = named.SSA
 	}
 	if sf == nil {
 		c.Bad(R, "anchor/main.Action-ssa", lit.Pos(), "cannot find SSA of the Action closure")
@@ -332,7 +346,16 @@ func r35NoSwappedArgs(c *core.Ctx) {
 			return true
 		})
 	}
-	c.FloorPrefix(R, "args-not-swapped/main.main->main.initGPKGTarget", 1)
+	// the one call with four same-typed-pair parameters that matters most, wherever in package main it is made
+	nInit := 0
+	for _, o := range c.Obligations(R) {
+		if strings.HasPrefix(o, "args-not-swapped/main.") && strings.HasSuffix(o, "->main.initGPKGTarget") {
+			nInit++
+		}
+	}
+	if nInit == 0 {
+		c.Bad(R, "instance-floor/args-not-swapped/main.*->main.initGPKGTarget", token.NoPos, "no call of initGPKGTarget from package main was examined (hand-confirmed floor is 1)")
+	}
 	c.Floor(R, 8)
 }
 
